@@ -13,5 +13,5 @@ Extraction "extracted/C13_model.ml" xb_types max_token cfg0 build cycle_take
   config_headers provider_new_headers header_entry_okb header_list_okb scenario_weights scenario_requests
   json_provider good_prefix entity_okb
   csv_source rows_spec init_sources cast_int
-  opt_accept scanner_setup scan_limit grpc_provider grpc_refused_expected http_provider_opts read_description
+  opt_accept scanner_setup scan_limit grpc_provider grpc_refused_expected grpc_read_error_expected http_provider_opts read_description
   cli_read cli_expected shape_okb pools_okb prepass read_settings.
